@@ -451,3 +451,48 @@ def vertex_positions(spec):
     for s in spec['surfaces'][:-1]:
         z.append(z[-1] + float(s.get('t', 0.0)))
     return z
+
+
+# ---------------------------------------------------------------------------
+# edit-after-first-use workloads (shared by checks that compare an edited lens with the oracle / a fresh lens of the
+# edited prescription)
+
+def gen_edits(rng, spec, kinds=('index', 'radius', 'thickness', 'conic'), nmax=2):
+    """1..nmax edits [kind, surface, value] through the public setters, valid for `spec`.
+
+    Index edits are not placed in front of a mirror (the library keeps the medium behind the mirror at its old index:
+    the two descriptions would differ) nor on the last optical surface (image-surface interface semantics)."""
+    K = len(spec['surfaces'])
+    out = []
+    for _ in range(int(rng.integers(1, nmax + 1))):
+        k = int(rng.integers(1, K))
+        su = spec['surfaces'][k - 1]
+        kind = str(rng.choice(list(kinds)))
+        curved = su.get('radius', 'inf') != 'inf'
+        std = su.get('type', 'standard') in ('standard', 'even_asphere')
+        if kind == 'index' and k < K - 1 and su.get('medium') != 'mirror' and spec['surfaces'][k].get('medium') != 'mirror':
+            out.append(['index', k, round(float(rng.uniform(1.3, 1.95)), 6)])
+        elif kind == 'radius' and std and curved:
+            out.append(['radius', k, round(float(su['radius']) * float(rng.uniform(0.7, 1.5)), 6)])
+        elif kind == 'conic' and std and curved:
+            out.append(['conic', k, round(float(rng.uniform(-1.5, 0.5)), 6)])
+        elif kind == 'thickness':
+            out.append(['thickness', k, round(float(su['t']) * float(rng.uniform(0.5, 1.5)), 6)])
+    return out
+
+
+def apply_edits(lens, spec, edits):
+    """Apply edits to the live lens through the public setters; returns the spec of the edited prescription."""
+    import copy
+    spec = copy.deepcopy(spec)
+    for kind, k, v in edits:
+        su = spec['surfaces'][k - 1]
+        if kind == 'index':
+            lens.set_index(v, k); su['medium'] = {'n': v}
+        elif kind == 'radius':
+            lens.set_radius(v, k); su['radius'] = v
+        elif kind == 'conic':
+            lens.set_conic(v, k); su['conic'] = v
+        else:
+            lens.set_thickness(v, k); su['t'] = v
+    return spec
